@@ -108,7 +108,7 @@ class Ids:
         return self.n
 
 
-def gen_sval(rnd, ids, fsig, *, form=None, extra_names=(), result_only=False, raising=0.0, custom=.25):
+def gen_sval(rnd, ids, fsig, *, form=None, extra_names=(), result_only=False, raising=0.0, custom=.25, underscore_first=0.0):
     """a validator. form: explicit | short | None (random). result_only: post-style validator over one value."""
     form = form or rnd.choice(['explicit', 'explicit', 'short'])
     if result_only:
@@ -125,6 +125,17 @@ def gen_sval(rnd, ids, fsig, *, form=None, extra_names=(), result_only=False, ra
         # keep **kw last
         vk = [p for p in vsig if p[1] == 'VarKw']; vsig = [p for p in vsig if p[1] != 'VarKw'] + vk
         e = gen_pred(rnd, fsig, False, extra_names, raising=raising)
+        if underscore_first and vsig and vsig[0][1] in ('PosOnly', 'PosOrKw') and len(vsig) > 1 and rnd.random() < underscore_first \
+                and all(p[2] is not None or p[1] in ('VarPos', 'VarKw') for p in vsig[1:]):
+            # an explicit validator whose first parameter happens to be called `_` and whose other parameters have defaults
+            # (`lambda _, limit=10: _ < limit`): it is still an explicit validator, `_` is the first argument
+            old_name = vsig[0][0]
+            def ren(x):
+                if isinstance(x, list):
+                    if len(x) == 2 and x[0] == 'var' and x[1] == old_name: return ['var', '_']
+                    return [ren(y) for y in x]
+                return x
+            vsig[0][0] = '_'; e = ren(e)
     if rnd.random() < .3:
         e = ['ormsg', e, rnd.choice(['bad value', 'nope', 'x must be positive'])]
     msg = rnd.choice(['configured message', 'msg']) if rnd.random() < .3 else None
